@@ -3,17 +3,48 @@
 Correspondence: cell index, `z2s`, trilinear / bilinear sampling and the vertdiff level of the real
 chemicals `Grid` / `Forcing` (synthetic ROMS files and the shipped forcing file) against the Lean model.
 Oracle: every query at a position inside the grid or up to one cell outside any edge returns the
-value of the nearest edge cell (no exception, no wrap-around); bracket / weight / convexity / sign claims."""
+value of the nearest edge cell (no exception, no wrap-around); bracket / weight / convexity / sign claims.
+Velocity, wvel, field and vert_mix are judged against the values of the particle's (nearest edge) cell
+(u / v faces of the layer, bracketing levels); u, v, w inside the grid also bit-exactly against the model's
+trilinear formula.  The same queries are issued for the `mine` pair and, batched, for all positions at once.
+Full LADiM runs: particles leaving through each boundary are retired and the run completes."""
 import importlib, os, tempfile, shutil
 import numpy as np
 from .common import Driver, F, I, L, unF, same_bits
 from . import romsfile
 
-RULE = ("synthetic ROMS files (6..10 x 5..9 x 3..5, random bathymetry, land patches) and the shipped chemicals forcing file; "
-        "positions on nodes, cell borders, interior, and 0..1 cell outside each of the four edges; depths from above the surface "
-        "to below the bed. Non-trivial: every query point.")
-ASSUMPTIONS = ["LADiM's bilin_inv / sample2D (xy2ll, ll2xy) are exercised, not modelled"]
+RULE = ("synthetic ROMS files (6..10 x 5..9 x 3..5, random bathymetry 20..100 m / shallow 2..30 m / deep 50..500 m, land patches "
+        "including the outermost sub-grid row / column; sub-grids: whole, [2,nx-2,1,ny-2], random limits with None entries; vertical "
+        "grid from the file (Vtransform 1 or 2, several hc) or from a Vinfo entry with Vstretching 1 / 2 / 4 and Vtransform 1 / 2) and the "
+        "shipped chemicals forcing file; the chemicals Grid+Forcing, the `mine` pair (chemicals Forcing on the sedimentation Grid) and "
+        "salmon_lice Forcing.vert_mix; positions on nodes, the outer cell borders, interior, 0..1 cell outside one edge and outside two "
+        "edges at once (corners); depths from above the surface to below the bed, exactly on w- and rho-levels, on the bed and half way "
+        "between two w-levels; velocity at the integrators' sub-steps tstep 0 / 0.5 / 1; every query issued per position and once for "
+        "the whole batch; full LADiM runs (chemicals, sedimentation, mine; EF / RK4; 0.3..0.9 cell per step) with particles released "
+        "0.05 / 0.3 / 0.6 cell inside each of the four boundaries in an outward current and one in the middle. Interior cell borders (x = n + 0.5) are not generated: there two cells are equally near "
+        "and the statement does not say which one is meant. Non-trivial: every query point.")
+ASSUMPTIONS = ["LADiM's bilin_inv / sample2D (xy2ll, ll2xy) are exercised, not modelled",
+               "value oracles on the Grid queries apply to the chemicals Grid; on the sedimentation / mine Grid (LADiM's ROMS Grid) only "
+               "sample_depth is judged by value, the inherited queries only for 'returns instead of failing'"]
 SITE = "ladim_plugins/chemicals/gridforce.py"
+EPS = 2.220446049250313e-16
+
+
+def hull_ok(v, vals):
+    """v is a convex combination of vals, up to the rounding of the eight weights and products that
+    sample3D adds up (a few ulp of the largest value; 64 ulp allowed - a wrong cell or an extrapolation
+    is off by the difference between neighbouring grid values)"""
+    vals = [float(t) for t in vals]
+    lo = min(vals); hi = max(vals)
+    tol = 64 * EPS * max(abs(lo), abs(hi))
+    return lo - tol <= float(v) <= hi + tol
+
+
+def level(col, z):
+    """bracketing level K (1..len-1) and weight A of depth z in an increasing column, as the z2s docstring states"""
+    K = int(np.sum(col < -z)); K = min(max(K, 1), len(col) - 1)
+    A = (col[K] + z) / (col[K] - col[K - 1]); A = min(max(float(A), 0.0), 1.0)
+    return K, A
 
 
 def positions(rng, g, n):
@@ -24,7 +55,7 @@ def positions(rng, g, n):
             x = float(rng.randrange(int(g.xmin), int(g.xmax) + 1)); y = float(rng.randrange(int(g.ymin), int(g.ymax) + 1))
         elif r < 0.5:
             x = rng.uniform(g.xmin - 0.49, g.xmax + 0.49); y = rng.uniform(g.ymin - 0.49, g.ymax + 0.49)
-        else:
+        elif r < 0.88:
             # up to one cell outside one edge
             x = rng.uniform(g.xmin, g.xmax); y = rng.uniform(g.ymin, g.ymax)
             side = rng.choice("WESN")
@@ -33,6 +64,11 @@ def positions(rng, g, n):
             if side == "E": x = g.xmax + d
             if side == "S": y = g.ymin - d
             if side == "N": y = g.ymax + d
+        else:
+            # outside two edges at once (a particle leaving through a corner)
+            dx_ = rng.choice([0.5, 0.51, 0.9, 1.0, 1.49]); dy_ = rng.choice([0.5, 0.51, 0.9, 1.0, 1.49])
+            x = g.xmin - dx_ if rng.random() < 0.5 else g.xmax + dx_
+            y = g.ymin - dy_ if rng.random() < 0.5 else g.ymax + dy_
         xs.append(x); ys.append(y)
     return np.array(xs), np.array(ys)
 
@@ -45,51 +81,139 @@ def try_call(ctx, pred, site, fn, cs):
         return None
 
 
-def check_grid(ctx, drv, pend, G, conf, label):
-    g = G.Grid(conf); f = G.Forcing(conf, g)
+
+def as_cols(v):
+    """result of a query -> list of 1-D arrays (one per returned component)"""
+    return [np.asarray(c) for c in v] if isinstance(v, tuple) else [np.asarray(v)]
+
+
+def special_depths(ctx, g, Z, Ic, Jc):
+    """depths exactly on a w-level / a rho-level / the bed / half way between two w-levels of the particle's column"""
+    for k in range(len(Z)):
+        if ctx.rng.random() < 0.3:
+            colw = g.z_w[:, Jc[k], Ic[k]]; colr = g.z_r[:, Jc[k], Ic[k]]
+            kind = ctx.rng.choice(["w_level", "rho_level", "bed", "mid_w"])
+            if kind == "w_level":
+                Z[k] = -colw[ctx.rng.randrange(len(colw))]
+            elif kind == "rho_level":
+                Z[k] = -colr[ctx.rng.randrange(len(colr))]
+            elif kind == "bed":
+                Z[k] = g.H[Jc[k], Ic[k]]
+            else:
+                j = ctx.rng.randrange(len(colw) - 1); Z[k] = -0.5 * (colw[j] + colw[j + 1])
+            Z[k] = Z[k] + 0.0          # -(-0.0) etc.: keep a plain +0.0
+            ctx.branch("z_" + kind)
+    return Z
+
+
+def check_grid(ctx, drv, pend, G, conf, label, pair="chemicals"):
+    own = pair == "chemicals"
+    if own:
+        g = G.Grid(conf); f = G.Forcing(conf, g); tag = "C15"; gsite = SITE
+    else:
+        # the `mine` module: chemicals Forcing on the sedimentation Grid (LADiM's ROMS Grid with bilinear sample_depth)
+        M = importlib.import_module("ladim_plugins.mine")
+        g = M.Grid(conf); f = M.Forcing(conf, g); tag = "C15.mine"; gsite = "ladim_plugins/mine/__init__.py"
+        label = label + "/mine"
     f.update(0)
     ny, nx = g.H.shape
-    X, Y = positions(ctx.rng, g, ctx.n(40, 300))
+    # the fields as they are before any query: the value oracles below refer to these copies, so a query that
+    # changes a field in place is judged against what the field was
+    U0 = f.U.copy(); V0 = f.V.copy(); dU0 = f.dU.copy(); dV0 = f.dV.copy(); W0 = f.W.copy(); T0 = f.temp.copy()
+    xmin = float(g.i0); xmax = float(g.i0 + nx - 1); ymin = float(g.j0); ymax = float(g.j0 + ny - 1)
+    X, Y = positions(ctx.rng, g, ctx.n(40, 300) if own else ctx.n(20, 120))
     Z = np.array([ctx.rng.choice([-1.0, 0.0, 0.5, 5.0, 30.0, 1e4, ctx.rng.uniform(0, 120)]) for _ in X])
     Ic = np.clip(np.round(X).astype(int) - g.i0, 0, nx - 1); Jc = np.clip(np.round(Y).astype(int) - g.j0, 0, ny - 1)
     Xc = Ic + float(g.i0); Yc = Jc + float(g.j0)          # centre of the nearest edge cell
+    Z = special_depths(ctx, g, Z, Ic, Jc)
+    TS = [ctx.rng.choice([0.5, 1.0]) for _ in X]          # the sub-steps of LADiM's RK4 integrator
+    singles = {}
     for k in range(len(X)):
         x = X[k:k + 1]; y = Y[k:k + 1]; z = Z[k:k + 1]
         inside = bool(g.ingrid(x, y)[0])
+        dom = bool(xmin - 0.5 < x[0] < xmax + 0.5 and ymin - 0.5 < y[0] < ymax + 0.5)     # half a cell beyond the outermost cell centres
         cs = dict(grid=label, x=x[0], y=y[0], z=z[0], inside=inside, i0=g.i0, j0=g.j0, shape=[ny, nx])
         ctx.case(key=(label, float(x[0]), float(y[0]), float(z[0])), nontrivial=True, sample=cs if k < 2 else None)
-        ctx.branch("inside" if inside else "outside_one_cell")
-        pre = "C15.inside" if inside else "C15.edge"
-        d = try_call(ctx, pre + ".sample_depth", SITE + "::Grid.sample_depth", lambda: g.sample_depth(x, y), cs)
-        if d is not None:
-            ctx.oracle(d[0] == g.H[Jc[k], Ic[k]], pre + ".sample_depth", SITE + "::Grid.sample_depth",
-                       "depth %r, nearest edge cell has %r" % (d[0], g.H[Jc[k], Ic[k]]), cs)
-        m = try_call(ctx, pre + ".sample_metric", SITE + "::Grid.sample_metric", lambda: g.sample_metric(x, y), cs)
-        if m is not None:
-            ctx.oracle(m[0][0] == g.dx[Jc[k], Ic[k]], pre + ".sample_metric", SITE + "::Grid.sample_metric", "metric of another cell", cs)
-        a = try_call(ctx, pre + ".atsea", SITE + "::Grid.atsea", lambda: (g.atsea(x, y), g.onland(x, y)), cs)
-        if a is not None:
-            ctx.oracle(bool(a[0][0]) == (g.M[Jc[k], Ic[k]] > 0) and bool(a[1][0]) == (g.M[Jc[k], Ic[k]] < 1), pre + ".atsea",
-                       SITE + "::Grid.atsea", "land mask of another cell", cs)
-        ll = try_call(ctx, pre + ".lonlat", SITE + "::Grid.lonlat", lambda: (g.lonlat(x, y, method="nearest"), g.lonlat(x, y)), cs)
-        if ll is not None:
-            ctx.oracle(ll[0][0][0] == g.lon[Jc[k], Ic[k]], pre + ".lonlat", SITE + "::Grid.lonlat", "lon of another cell", cs)
+        ctx.branch(("inside" if inside else "outside_one_cell") + ("" if own else "_mine"))
+        if not (xmin <= x[0] <= xmax) and not (ymin <= y[0] <= ymax):
+            ctx.branch("outside_corner")
+        pre = tag + (".inside" if inside else ".edge")
+        if own:
+            on_border = x[0] in (xmin - 0.5, xmax + 0.5) or y[0] in (ymin - 0.5, ymax + 0.5)
+            if not on_border:
+                ctx.oracle(inside == dom, "C15.ingrid.wrong", SITE + "::Grid.ingrid",
+                           "ingrid = %r for a position %s half a cell of the outermost cell centres" % (inside, "within" if dom else "beyond"), cs)
+            d = try_call(ctx, pre + ".sample_depth", SITE + "::Grid.sample_depth", lambda: g.sample_depth(x, y), cs)
+            if d is not None:
+                ctx.oracle(d[0] == g.H[Jc[k], Ic[k]], pre + ".sample_depth", SITE + "::Grid.sample_depth",
+                           "depth %r, nearest edge cell has %r" % (d[0], g.H[Jc[k], Ic[k]]), cs)
+            m = try_call(ctx, pre + ".sample_metric", SITE + "::Grid.sample_metric", lambda: g.sample_metric(x, y), cs)
+            if m is not None:
+                ctx.oracle(m[0][0] == g.dx[Jc[k], Ic[k]], pre + ".sample_metric", SITE + "::Grid.sample_metric", "metric of another cell", cs)
+            a = try_call(ctx, pre + ".atsea", SITE + "::Grid.atsea", lambda: (g.atsea(x, y), g.onland(x, y)), cs)
+            if a is not None:
+                ctx.oracle(bool(a[0][0]) == (g.M[Jc[k], Ic[k]] > 0) and bool(a[1][0]) == (g.M[Jc[k], Ic[k]] < 1), pre + ".atsea",
+                           SITE + "::Grid.atsea", "land mask of another cell", cs)
+            ll = try_call(ctx, pre + ".lonlat", SITE + "::Grid.lonlat", lambda: (g.lonlat(x, y, method="nearest"), g.lonlat(x, y)), cs)
+            if ll is not None:
+                ctx.oracle(ll[0][0][0] == g.lon[Jc[k], Ic[k]], pre + ".lonlat", SITE + "::Grid.lonlat", "lon of another cell", cs)
+                ctx.oracle(ll[0][1][0] == g.lat[Jc[k], Ic[k]], pre + ".lonlat", SITE + "::Grid.lonlat", "lat of another cell", cs)
+                # the form the IBMs issue through LADiM's grid wrapper: method=None
+                ln = try_call(ctx, pre + ".lonlat", SITE + "::Grid.lonlat", lambda: g.lonlat(x, y, method=None), cs)
+                if ln is not None:
+                    ctx.oracle(ln[0][0] == g.lon[Jc[k], Ic[k]] and ln[1][0] == g.lat[Jc[k], Ic[k]], pre + ".lonlat", SITE + "::Grid.lonlat",
+                               "lonlat(method=None): lon/lat of another cell", cs)
+                # "clamp outside": the bilinear conversion of a position beyond the outermost cell centres is that of the nearest
+                # position on the line of the outermost centres (same arithmetic -> same bits)
+                r = g.xy2ll(np.clip(x, xmin, xmax), np.clip(y, ymin, ymax))
+                ctx.oracle(np.array_equal(ll[1][0], r[0]) and np.array_equal(ll[1][1], r[1]), pre + ".lonlat_not_clamped", SITE + "::Grid.xy2ll",
+                           "lon/lat %r differs from lon/lat %r of the clamped position" % (ll[1], r), cs)
+            singles.setdefault("sample_depth", []).append(None if d is None else as_cols(d))
+            singles.setdefault("sample_metric", []).append(None if m is None else as_cols(m))
+            singles.setdefault("atsea", []).append(None if a is None else as_cols(a[0]))
+            singles.setdefault("onland", []).append(None if a is None else as_cols(a[1]))
+            singles.setdefault("lonlat_nearest", []).append(None if ll is None else as_cols(ll[0]))
+            singles.setdefault("lonlat", []).append(None if ll is None else as_cols(ll[1]))
+        else:
+            # the inherited queries of the sedimentation / mine Grid: "returns instead of failing" for positions inside the grid
+            # or up to one cell beyond the half-cell margin (the value of sample_depth is judged in sed_depth)
+            if xmin - 0.5 <= x[0] <= xmax + 0.5 and ymin - 0.5 <= y[0] <= ymax + 0.5:
+                for qn, q in (("sample_depth", lambda: g.sample_depth(x, y)), ("sample_metric", lambda: g.sample_metric(x, y)),
+                              ("atsea", lambda: g.atsea(x, y)), ("onland", lambda: g.onland(x, y)),
+                              ("lonlat_nearest", lambda: g.lonlat(x, y, method="nearest")),
+                              # as issued through LADiM's grid wrapper by the sedimentation / mine IBM (resuspend) ...
+                              ("lonlat_None", lambda: g.lonlat(x, y, method=None)),
+                              # ... and by the mine IBM when it stores the particles it takes out (store)
+                              ("xy2ll", lambda: g.xy2ll(x, y))):
+                    try_call(ctx, pre + "." + qn + "_raises", gsite + "::Grid." + ("lonlat" if qn.startswith("lonlat") else qn), q, cs)
         # forcing queries
         ref_cs = (np.array([Xc[k]]), np.array([Yc[k]]))
+        colw = g.z_w[:, Jc[k], Ic[k]]; colr = g.z_r[:, Jc[k], Ic[k]]
+        Kw, Aw = level(colw, z[0]); Kr, Ar = level(colr, z[0])
+        ts = TS[k]
         for name, call, refcall in (
                 ("field", lambda: f.field(x, y, z, "temp"), lambda: f.field(ref_cs[0], ref_cs[1], z, "temp")),
                 ("vertdiff", lambda: f.vertdiff(x, y, z, "AKs"), lambda: f.vertdiff(ref_cs[0], ref_cs[1], z, "AKs")),
-                ("horzdiff", lambda: f.horzdiff(x, y, z), None),
+                ("horzdiff", lambda: f.horzdiff(x, y, z), lambda: f.horzdiff(ref_cs[0], ref_cs[1], z)),
                 ("velocity", lambda: f.velocity(x, y, z), None),
+                ("velocity_tstep", lambda: f.velocity(x, y, z, tstep=ts), None),
                 ("wvel", lambda: f.wvel(x, y, z), None)):
-            v = try_call(ctx, pre + "." + name, SITE + "::Forcing." + name, call, cs)
+            fname = "velocity" if name == "velocity_tstep" else name
+            v = try_call(ctx, pre + "." + name, SITE + "::Forcing." + fname, call, cs)
+            singles.setdefault(name, []).append(None if v is None else as_cols(v))
             if v is None:
                 continue
             if refcall is not None:
                 r = refcall()
-                ctx.oracle(np.array_equal(np.asarray(v), np.asarray(r)), pre + "." + name, SITE + "::Forcing." + name,
+                ctx.oracle(np.array_equal(np.asarray(v), np.asarray(r)), pre + "." + name, SITE + "::Forcing." + fname,
                            "value %r differs from the value at the nearest edge cell %r" % (v, r), cs)
-            ctx.oracle(bool(np.all(np.isfinite(np.asarray(v, dtype=float)))), pre + "." + name + "_finite", SITE + "::Forcing." + name, "non-finite", cs)
+            ctx.oracle(bool(np.all(np.isfinite(np.asarray(v, dtype=float)))), pre + "." + name + "_finite", SITE + "::Forcing." + fname, "non-finite", cs)
+            if name == "field":
+                # a sampled field is a convex combination of the surrounding grid values: here of the two rho-levels of the
+                # particle's (nearest edge) cell that bracket its depth
+                vals = [T0[Kr - 1, Jc[k], Ic[k]], T0[Kr, Jc[k], Ic[k]]]
+                ctx.oracle(hull_ok(v[0], vals), pre + ".field.not_between_bracketing_levels", SITE + "::Forcing.field",
+                           "temp %r, values of cell (%d,%d) at the bracketing rho-levels %d, %d are %r" % (v[0], Jc[k], Ic[k], Kr - 1, Kr, vals), cs)
             if name == "vertdiff":
                 ctx.oracle(v[0] >= 0, "C15.vertdiff.negative", SITE + "::Forcing.vertdiff", "negative diffusivity %r" % v[0], cs)
                 Kz, Az = G.z2s(g.z_w, np.array([float(Ic[k])]), np.array([float(Jc[k])]), z)
@@ -100,9 +224,15 @@ def check_grid(ctx, drv, pend, G, conf, label):
                     pend.append(("vdlevel", drv.ask("gs.vdlevel", I(len(g.Cs_w)), I(int(Kz[0])), F(Az[0])), kn, cs))
             if name == "horzdiff":
                 ctx.oracle(v[0] >= 0, "C15.horzdiff.negative", SITE + "::Forcing.horzdiff", "negative %r" % v[0], cs)
-                I2 = min(max(int(np.round(x[0])) - g.i0, 0), nx - 2); J2 = min(max(int(np.round(y[0])) - g.j0, 0), ny - 2)
-                if g.M[J2, I2] < 1:
-                    ctx.oracle(v[0] == 0, "C15.horzdiff.nonzero_on_land", SITE + "::Forcing.horzdiff", "%r on land" % v[0], cs)
+                # (an earlier version of this oracle read the land mask at the index the implementation clamps for its
+                # shear stencil, imax - 2 / jmax - 2, i.e. at the *neighbouring* cell for particles in the last row or
+                # column: it mirrored the defect repaired by fix: baf44d8 and demanded zero for sea particles next to
+                # land.  "Zero on land" is judged on the particle's own cell below.)
+                if g.M[Jc[k], Ic[k]] < 1:
+                    # "zero on land": the particle's own (nearest edge) cell is land
+                    ctx.branch("horzdiff_on_land_cell")
+                    ctx.oracle(v[0] == 0, "C15.horzdiff.nonzero_on_land_cell", SITE + "::Forcing.horzdiff",
+                               "%r although cell (%d,%d) of the particle is land" % (v[0], Jc[k], Ic[k]), cs)
             if name == "velocity" and inside:
                 # convexity: within the range of the layer values around the particle
                 Kz, Az = G.z2s(g.z_w, x - g.i0, y - g.j0, z)
@@ -111,35 +241,139 @@ def check_grid(ctx, drv, pend, G, conf, label):
                 lo = min(f.U[lay].min(), 0); hi = max(f.U[lay].max(), 0)
                 ctx.oracle(lo - 1e-12 <= v[0][0] <= hi + 1e-12, "C15.velocity.not_convex", SITE + "::Forcing.velocity",
                            "u=%r outside the range [%r,%r] of its layer" % (v[0][0], lo, hi), cs)
+            if fname == "velocity":
+                # u is a convex combination of the values on the two u-faces, v of the values on the two v-faces, of the particle's
+                # cell - the nearest edge cell for a position outside - in the layer that contains the particle (on a w-level
+                # exactly: either adjacent layer).  Fields at the sub-step: U + tstep * dU.
+                t = 0.0 if name == "velocity" else ts
+                Ut = U0 + t * dU0 if t >= 0.001 else U0
+                Vt = V0 + t * dV0 if t >= 0.001 else V0
+                lays = [Kw - 1] + ([Kw] if (colw[Kw] == -z[0] and Kw <= Ut.shape[0] - 1) else [])
+                uvals = [Ut[l, Jc[k], Ic[k] + e] for l in lays for e in (0, 1)]
+                vvals = [Vt[l, Jc[k] + e, Ic[k]] for l in lays for e in (0, 1)]
+                ctx.oracle(hull_ok(v[0][0], uvals) and hull_ok(v[1][0], vvals), pre + ".velocity.not_convex_of_cell_faces", SITE + "::Forcing.velocity",
+                           "tstep %r: (u, v) = (%r, %r); u on the faces of cell (%d,%d), layer(s) %r: %r; v on its faces: %r"
+                           % (t, v[0][0], v[1][0], Jc[k], Ic[k], lays, uvals, vvals), cs)
+                if drv.available and dom:
+                    # trilinear model on the eight values sample3D reads (velocity sets A = 1: the layer value)
+                    Kp, Ap = (Kw, 1.0) if Kw < len(colw) - 1 else (len(colw) - 2, 0.0)
+                    Xu = (x[0] - g.i0) + 0.5; Yr = float(np.round(y[0] - g.j0))
+                    Iu = min(max(int(Xu), 0), Ut.shape[2] - 2); Ju = min(max(int(Yr), 0), Ut.shape[1] - 2)
+                    cu = [Ut[kk_, Ju + b, Iu + a_] for kk_ in (Kp, Kp - 1) for a_, b in ((0, 0), (0, 1), (1, 0), (1, 1))]
+                    pend.append(("tri", drv.ask("gs.tri", F(Xu - Iu), F(Yr - Ju), F(Ap), *[F(c) for c in cu]), float(v[0][0]), dict(cs, what="u", tstep=t)))
+                    Xr = float(np.round(x[0] - g.i0)); Yv = (y[0] - g.j0) + 0.5
+                    Iv = min(max(int(Xr), 0), Vt.shape[2] - 2); Jv = min(max(int(Yv), 0), Vt.shape[1] - 2)
+                    cv = [Vt[kk_, Jv + b, Iv + a_] for kk_ in (Kp, Kp - 1) for a_, b in ((0, 0), (0, 1), (1, 0), (1, 1))]
+                    pend.append(("tri", drv.ask("gs.tri", F(Xr - Iv), F(Yv - Jv), F(Ap), *[F(c) for c in cv]), float(v[1][0]), dict(cs, what="v", tstep=t)))
+            if name == "wvel":
+                # w is a convex combination of the values of the particle's (nearest edge) cell at the two bracketing w-levels
+                vals = [W0[Kw - 1, Jc[k], Ic[k]], W0[Kw, Jc[k], Ic[k]]]
+                ctx.oracle(hull_ok(v[0], vals), pre + ".wvel.not_between_bracketing_levels", SITE + "::Forcing.wvel",
+                           "w = %r; values of cell (%d,%d) at the w-levels %d, %d are %r" % (v[0], Jc[k], Ic[k], Kw - 1, Kw, vals), cs)
+                if drv.available and dom:
+                    Xr = float(np.round(x[0] - g.i0)); Yr = float(np.round(y[0] - g.j0))
+                    Iw = min(max(int(Xr), 0), W0.shape[2] - 2); Jw = min(max(int(Yr), 0), W0.shape[1] - 2)
+                    cw = [W0[kk_, Jw + b, Iw + a_] for kk_ in (Kw, Kw - 1) for a_, b in ((0, 0), (0, 1), (1, 0), (1, 1))]
+                    pend.append(("tri", drv.ask("gs.tri", F(Xr - Iw), F(Yr - Jw), F(Aw), *[F(c) for c in cw]), float(v[0]), dict(cs, what="w")))
         # model: cell index and z2s
+        col = g.z_w[:, Jc[k], Ic[k]]
+        Kz, Az = G.z2s(g.z_w, np.array([float(Ic[k])]), np.array([float(Jc[k])]), z)
         if drv.available:
             pend.append(("cell", drv.ask("gs.cell", I(nx), I(g.i0), F(x[0])), int(Ic[k]), cs))
             pend.append(("cell", drv.ask("gs.cell", I(ny), I(g.j0), F(y[0])), int(Jc[k]), cs))
-            col = g.z_w[:, Jc[k], Ic[k]]
-            Kz, Az = G.z2s(g.z_w, np.array([float(Ic[k])]), np.array([float(Jc[k])]), z)
             pend.append(("z2s", drv.ask("gs.z2s", L(col), F(z[0])), (int(Kz[0]), float(Az[0])), cs))
-            # bracket / weight oracle
-            K_, A_ = int(Kz[0]), float(Az[0])
-            ctx.oracle(1 <= K_ <= len(col) - 1 and 0 <= A_ <= 1, "C15.z2s.range", SITE + "::z2s", "K=%d A=%r" % (K_, A_), cs)
-            if col[0] < -z[0] < col[-1]:
-                ctx.oracle(col[K_ - 1] <= -z[0] <= col[K_] and abs(A_ * col[K_ - 1] + (1 - A_) * col[K_] + z[0]) <= 1e-9 * (1 + abs(z[0])),
-                           "C15.z2s.bracket", SITE + "::z2s", "K=%d A=%r do not bracket / reproduce depth %r" % (K_, A_, z[0]), cs)
-    # xy2ll / ll2xy: mutual inverses inside the grid (to 1e-6 of a cell: both maps are smooth and well conditioned)
-    npt = 60
-    Xi = np.array([ctx.rng.uniform(g.xmin, g.xmax) for _ in range(npt)]); Yi = np.array([ctx.rng.uniform(g.ymin, g.ymax) for _ in range(npt)])
-    # targets close to the centre of the grid (the solver's initial guess) included
-    Xi[:6] = 0.5 * (g.xmin + g.xmax) + np.array([0.0, 0.17, -0.1, 0.3, -0.33, 0.05]); Yi[:6] = 0.5 * (g.ymin + g.ymax) + np.array([0.0, 0.03, 0.2, -0.25, 0.1, -0.02])
-    lon, lat = g.xy2ll(Xi, Yi)
-    try:
-        xb, yb = g.ll2xy(lon, lat)
-        dev = np.maximum(np.abs(xb - Xi), np.abs(yb - Yi))
-        k = int(np.argmax(dev))
-        ctx.oracle(bool(dev.max() <= 1e-6), "C15.ll2xy.not_inverse", SITE + "::Grid.ll2xy",
-                   "ll2xy(xy2ll(x, y)) = (%r, %r) for (x, y) = (%r, %r): off by %.3g grid cells" % (xb[k], yb[k], Xi[k], Yi[k], dev.max()),
-                   dict(grid=label, x=Xi[k], y=Yi[k]))
-    except Exception as e:
-        ctx.oracle(False, "C15.ll2xy.raises", SITE + "::Grid.ll2xy", "ll2xy raised %r on %s" % (e, label), dict(grid=label))
+        # bracket / weight oracle (also without the model driver)
+        K_, A_ = int(Kz[0]), float(Az[0])
+        ctx.oracle(1 <= K_ <= len(col) - 1 and 0 <= A_ <= 1, "C15.z2s.range", SITE + "::z2s", "K=%d A=%r" % (K_, A_), cs)
+        if col[0] < -z[0] < col[-1]:
+            ctx.oracle(col[K_ - 1] <= -z[0] <= col[K_] and abs(A_ * col[K_ - 1] + (1 - A_) * col[K_] + z[0]) <= 1e-9 * (1 + abs(z[0])),
+                       "C15.z2s.bracket", SITE + "::z2s", "K=%d A=%r do not bracket / reproduce depth %r" % (K_, A_, z[0]), cs)
+    # the same queries issued once for the whole batch of positions, as the tracker and the IBMs issue them: every element
+    # is the value the query returns for that position alone
+    batch = [("field", lambda: f.field(X, Y, Z, "temp"), None), ("vertdiff", lambda: f.vertdiff(X, Y, Z, "AKs"), None),
+             ("horzdiff", lambda: f.horzdiff(X, Y, Z), None), ("velocity", lambda: f.velocity(X, Y, Z), None),
+             ("velocity_tstep", lambda: f.velocity(X, Y, Z, tstep=0.5), [t == 0.5 for t in TS]), ("wvel", lambda: f.wvel(X, Y, Z), None)]
+    if own:
+        batch += [("sample_depth", lambda: g.sample_depth(X, Y), None), ("sample_metric", lambda: g.sample_metric(X, Y), None),
+                  ("atsea", lambda: g.atsea(X, Y), None), ("onland", lambda: g.onland(X, Y), None),
+                  ("lonlat_nearest", lambda: g.lonlat(X, Y, method="nearest"), None), ("lonlat", lambda: g.lonlat(X, Y), None)]
+    for name, call, sel in batch:
+        one = singles.get(name, [])
+        if not one or any(o is None for o in one):
+            continue                     # a single query raised: already reported
+        ctx.branch("batch_query")
+        bsite = (SITE + "::Forcing." + ("velocity" if name == "velocity_tstep" else name)) if name in ("field", "vertdiff", "horzdiff", "velocity", "velocity_tstep", "wvel") \
+            else SITE + "::Grid." + name.split("_nearest")[0]
+        cs = dict(grid=label, n=len(X), X=X, Y=Y, Z=Z, query=name)
+        vb = try_call(ctx, tag + ".batch." + name, bsite, call, cs)
+        if vb is None:
+            continue
+        cols = as_cols(vb)
+        bad = [(k, c) for k in range(len(X)) if sel is None or sel[k] for c in range(len(cols))
+               if np.shape(cols[c]) != (len(X),) or not np.array_equal(cols[c][k], one[k][c][0], equal_nan=True)]
+        ctx.oracle(not bad, tag + ".batch." + name, bsite,
+                   "element %r of the batched query differs from the query for that position alone" % (bad[:1],), cs)
+    if own:
+        # xy2ll / ll2xy: mutual inverses inside the grid (to 1e-6 of a cell: both maps are smooth and well conditioned)
+        npt = 60
+        Xi = np.array([ctx.rng.uniform(g.xmin, g.xmax) for _ in range(npt)]); Yi = np.array([ctx.rng.uniform(g.ymin, g.ymax) for _ in range(npt)])
+        # targets close to the centre of the grid (the solver's initial guess) included
+        Xi[:6] = 0.5 * (g.xmin + g.xmax) + np.array([0.0, 0.17, -0.1, 0.3, -0.33, 0.05]); Yi[:6] = 0.5 * (g.ymin + g.ymax) + np.array([0.0, 0.03, 0.2, -0.25, 0.1, -0.02])
+        lon, lat = g.xy2ll(Xi, Yi)
+        try:
+            xb, yb = g.ll2xy(lon, lat)
+            dev = np.maximum(np.abs(xb - Xi), np.abs(yb - Yi))
+            k = int(np.argmax(dev))
+            ctx.oracle(bool(dev.max() <= 1e-6), "C15.ll2xy.not_inverse", SITE + "::Grid.ll2xy",
+                       "ll2xy(xy2ll(x, y)) = (%r, %r) for (x, y) = (%r, %r): off by %.3g grid cells" % (xb[k], yb[k], Xi[k], Yi[k], dev.max()),
+                       dict(grid=label, x=Xi[k], y=Yi[k]))
+        except Exception as e:
+            ctx.oracle(False, "C15.ll2xy.raises", SITE + "::Grid.ll2xy", "ll2xy raised %r on %s" % (e, label), dict(grid=label))
     f.close()
+
+
+def lice_vert_mix(ctx, conf, label):
+    """salmon_lice Forcing.vert_mix: AKs of the particle's (nearest edge) cell at a w-level bracketing its depth"""
+    Lm = importlib.import_module("ladim_plugins.salmon_lice.gridforce")
+    site = "ladim_plugins/salmon_lice/gridforce.py::Forcing.vert_mix"
+    g = Lm.Grid(conf); f = Lm.Forcing(conf, g)
+    f.update(0)
+    A0 = f.AKs.copy()
+    ny, nx = g.H.shape
+    X, Y = positions(ctx.rng, g, ctx.n(25, 150))
+    Z = np.array([ctx.rng.choice([-1.0, 0.0, 0.5, 5.0, 30.0, 1e4, ctx.rng.uniform(0, 120)]) for _ in X])
+    Ic = np.clip(np.round(X).astype(int) - g.i0, 0, nx - 1); Jc = np.clip(np.round(Y).astype(int) - g.j0, 0, ny - 1)
+    Z = special_depths(ctx, g, Z, Ic, Jc)
+    one = []
+    for k in range(len(X)):
+        x = X[k:k + 1]; y = Y[k:k + 1]; z = Z[k:k + 1]
+        inside = bool(g.ingrid(x, y)[0])
+        cs = dict(grid=label, module="salmon_lice", x=x[0], y=y[0], z=z[0], inside=inside, i0=g.i0, j0=g.j0, shape=[ny, nx])
+        ctx.case(key=("lice", label, float(x[0]), float(y[0]), float(z[0])), nontrivial=True)
+        ctx.branch("vert_mix_inside" if inside else "vert_mix_outside_one_cell")
+        pre = "C15.lice.inside" if inside else "C15.lice.edge"
+        v = try_call(ctx, pre + ".vert_mix", site, lambda: f.vert_mix(x, y, z), cs)
+        one.append(v)
+        if v is None:
+            continue
+        r = f.vert_mix(np.array([Ic[k] + float(g.i0)]), np.array([Jc[k] + float(g.j0)]), z)
+        ctx.oracle(np.array_equal(np.asarray(v), np.asarray(r)), pre + ".vert_mix", site,
+                   "value %r differs from the value at the nearest edge cell %r" % (v, r), cs)
+        Kw, Aw = level(g.z_w[:, Jc[k], Ic[k]], z[0])
+        vals = [A0[Kw - 1, Jc[k], Ic[k]], A0[Kw, Jc[k], Ic[k]]]
+        ctx.oracle(hull_ok(v[0], vals), pre + ".vert_mix.not_between_bracketing_levels", site,
+                   "AKs %r, values of cell (%d,%d) at the w-levels %d, %d are %r" % (v[0], Jc[k], Ic[k], Kw - 1, Kw, vals), cs)
+    if all(o is not None for o in one):
+        cs = dict(grid=label, module="salmon_lice", n=len(X), X=X, Y=Y, Z=Z)
+        vb = try_call(ctx, "C15.lice.batch.vert_mix", site, lambda: f.vert_mix(X, Y, Z), cs)
+        if vb is not None:
+            ctx.branch("batch_query")
+            ctx.oracle(np.shape(vb) == (len(X),) and all(np.array_equal(vb[k], one[k][0], equal_nan=True) for k in range(len(X))),
+                       "C15.lice.batch.vert_mix", site, "an element of the batched query differs from the query for that position alone", cs)
+    try:
+        f.close()
+    except Exception:
+        pass
 
 
 def sed_depth(ctx, drv, pend, conf, label):
@@ -151,15 +385,21 @@ def sed_depth(ctx, drv, pend, conf, label):
         r = ctx.rng.random()
         if r < 0.3:
             x = float(ctx.rng.randrange(g.i0, g.i0 + nx)); y = float(ctx.rng.randrange(g.j0, g.j0 + ny))
-        elif r < 0.7:
+        elif r < 0.6:
             x = ctx.rng.uniform(g.i0, g.i0 + nx - 1); y = ctx.rng.uniform(g.j0, g.j0 + ny - 1)
-        else:
+        elif r < 0.9:
             x = ctx.rng.uniform(g.i0, g.i0 + nx - 1); y = ctx.rng.uniform(g.j0, g.j0 + ny - 1)
-            side = ctx.rng.choice("WESN"); d = ctx.rng.choice([0.2, 0.49, 0.9])
+            side = ctx.rng.choice("WESN"); d = ctx.rng.choice([0.2, 0.49, 0.9, 1.0, 1.49])
             if side == "W": x = g.i0 - d
             if side == "E": x = g.i0 + nx - 1 + d
             if side == "S": y = g.j0 - d
             if side == "N": y = g.j0 + ny - 1 + d
+        else:
+            # beyond two edges at once
+            dx_ = ctx.rng.choice([0.2, 0.49, 0.9, 1.0, 1.49]); dy_ = ctx.rng.choice([0.2, 0.49, 0.9, 1.0, 1.49])
+            x = g.i0 - dx_ if ctx.rng.random() < 0.5 else g.i0 + nx - 1 + dx_
+            y = g.j0 - dy_ if ctx.rng.random() < 0.5 else g.j0 + ny - 1 + dy_
+            ctx.branch("sed_depth_corner")
         cs = dict(grid=label, x=x, y=y)
         ctx.case(key=("sed", label, x, y), nontrivial=True); ctx.branch("sed_depth")
         try:
@@ -175,9 +415,147 @@ def sed_depth(ctx, drv, pend, conf, label):
                    "depth %r, surrounding node depths %r" % (d, corners), cs)
         if x == np.floor(x) and y == np.floor(y) and not outside:
             ctx.oracle(d == g.H[int(y) - g.j0, int(x) - g.i0], "C15.sed_depth.node", site, "depth at node %r != %r" % (d, g.H[int(y) - g.j0, int(x) - g.i0]), cs)
-        if drv.available and not outside:
-            p = i - i0; q = j - j0
+        p = i - i0; q = j - j0
+        if outside:
+            # the value of the nearest edge: the bilinear depth at the nearest position on the line of the outermost nodes
+            # (1e-12 relative: the interpolation is a sum of four products of magnitude <= max depth)
+            ctx.branch("sed_depth_outside")
+            e = (1.0 - q) * ((1.0 - p) * corners[0] + p * corners[1]) + q * ((1.0 - p) * corners[2] + p * corners[3])
+            ctx.oracle(abs(d - e) <= 1e-12 * max(abs(c) for c in corners), "C15.sed_depth.outside_not_nearest_edge_point", site,
+                       "depth %r, depth at the nearest position (%r, %r) on the edge is %r" % (d, i + g.i0, j + g.j0, e), cs)
+        if drv.available:
             pend.append(("bil", drv.ask("gs.bil", F(p), F(q), F(corners[0]), F(corners[1]), F(corners[2]), F(corners[3])), d, cs))
+
+
+def full_run(ctx, tmp, module, side, idx):
+    """a full LADiM run of one module on a flat basin with a uniform current towards one boundary: three particles released
+    0.05 / 0.3 / 0.6 cell inside that boundary and one in the middle.  The run must complete and, at the last output, only the
+    particle in the middle is left (the others were retired by LADiM after leaving the grid)."""
+    import yaml, netCDF4, logging, importlib.resources, traceback
+    import ladim
+    nx, ny, N = 12, 11, ctx.rng.randrange(3, 6)
+    nt = 3; dt = 600
+    cells = ctx.rng.choice([0.3, 0.45, 0.6, 0.75, 0.9])            # displacement per time step, grid cells (cells are 800 m)
+    speed = cells * 800.0 / dt
+    adv = ctx.rng.choice(["EF", "RK4"])            # the integrators of the installed LADiM
+    uu = {"W": -speed, "E": speed}.get(side, 0.0); vv = {"S": -speed, "N": speed}.get(side, 0.0)
+    path = os.path.join(tmp, "run%d.nc" % idx); rls = os.path.join(tmp, "run%d.rls" % idx); out = os.path.join(tmp, "run%d_out.nc" % idx)
+    romsfile.write_roms(path, ctx.rng, nx=nx, ny=ny, N=N, flat=50.0,
+                        values=dict(u=np.full((nt, N, ny, nx - 1), uu), v=np.full((nt, N, ny - 1, nx), vv)))
+    with netCDF4.Dataset(path, "a") as ds:
+        ds["pm"][:] = 1.0 / 800.0; ds["pn"][:] = 1.0 / 800.0
+    with importlib.resources.files("ladim_plugins." + module).joinpath("ladim.yaml").open() as fp:
+        conf = yaml.safe_load(fp)
+    conf["time_control"] = dict(start_time="2015-09-07 01:00:00", stop_time="2015-09-07 01:30:00")
+    conf["files"] = dict(particle_release_file=rls, output_file=out)
+    conf["gridforce"]["input_file"] = path
+    conf["numerics"]["dt"] = [dt, "s"]; conf["numerics"]["diffusion"] = 0; conf["numerics"]["advection"] = adv
+    conf["output_variables"]["outper"] = [dt, "s"]
+    if "lifespan" in conf["ibm"]:
+        conf["ibm"]["lifespan"] = 10 ** 7
+    if module == "mine":
+        conf["ibm"]["vertical_advection"] = bool(ctx.rng.random() < 0.5)
+    gmod = importlib.import_module(conf["gridforce"]["module"])
+    g = gmod.Grid(dict(gridforce=dict(input_file=path)))
+    # the extent of this module's ingrid (chemicals: half a cell beyond the outermost cell centres; LADiM's: half a cell inside)
+    xs = np.linspace(g.xmin - 1, g.xmax + 1, 4001); ys = np.linspace(g.ymin - 1, g.ymax + 1, 4001)
+    inx = xs[g.ingrid(xs, np.full_like(xs, 0.5 * (g.ymin + g.ymax)))]; iny = ys[g.ingrid(np.full_like(ys, 0.5 * (g.xmin + g.xmax)), ys)]
+    x0, x1, y0, y1 = float(inx.min()), float(inx.max()), float(iny.min()), float(iny.max())
+    pts = [(0.5 * (x0 + x1), 0.5 * (y0 + y1))]
+    for dist, along in ((0.05, 0.25), (0.3, 0.5), (0.6, 0.8)):
+        if side == "W": pts.append((x0 + dist, y0 + along * (y1 - y0)))
+        if side == "E": pts.append((x1 - dist, y0 + along * (y1 - y0)))
+        if side == "S": pts.append((x0 + along * (x1 - x0), y0 + dist))
+        if side == "N": pts.append((x0 + along * (x1 - x0), y1 - dist))
+    with open(rls, "w") as fp:
+        for (x, y) in pts:
+            row = dict(release_time="2015-09-07T01:00:00", X="%.6f" % x, Y="%.6f" % y, Z="5", group_id="0", active="1", sink_vel="0.00001", mult="1")
+            fp.write("\t".join(row[v] for v in conf["particle_release"]["variables"]) + "\n")
+    cs = dict(module=module, boundary=side, cells_per_step=cells, advection=adv, N=N, release=pts, config=conf)
+    site = "ladim_plugins/%s (full LADiM run)" % module
+    ctx.case(key=("run", module, side, cells, adv, idx), nontrivial=True); ctx.branch("full_run_%s_%s" % (module, side))
+    root = logging.getLogger(); handlers = root.handlers[:]; lvl = root.level
+    logging.disable(logging.CRITICAL)
+    err = None
+    try:
+        ladim.main(yaml.safe_dump(conf))
+    except KeyboardInterrupt:
+        raise
+    except BaseException as e:
+        err = "%r\n%s" % (e, traceback.format_exc()[-2500:])
+    finally:
+        logging.disable(logging.NOTSET)
+        for h in root.handlers[:]:
+            if h not in handlers:
+                root.removeHandler(h)
+        root.setLevel(lvl)
+    if not ctx.oracle(err is None, "C15.run.aborted", site, "the run did not complete: %s" % (err,), cs):
+        return
+    with netCDF4.Dataset(out) as nc:
+        count = [int(c) for c in nc["particle_count"][:]]
+        pid = [int(p) for p in nc["pid"][:]]
+    ctx.oracle(count[0] == 4 and count[-1] == 1 and pid[-1] == 0, "C15.run.not_retired", site,
+               "particle_count per output step %r (pids %r): expected 4 at the start and only particle 0 (released in the middle) at the end" % (count, pid), cs)
+
+
+def make_conf(ctx, tmp, r):
+    """one synthetic ROMS file and configuration: size, sub-grid, land, bathymetry range and vertical grid drawn at random"""
+    import netCDF4
+    nx = ctx.rng.randrange(6, 11); ny = ctx.rng.randrange(5, 10); N = ctx.rng.randrange(3, 6)
+    # sub-grid (python style limits in the whole grid; None = no limitation)
+    sg = ctx.rng.random(); sub = None
+    if sg < 0.25:
+        sub = [2, nx - 2, 1, ny - 2]; ctx.branch("subgrid_fixed")
+    elif sg < 0.6:
+        i0 = ctx.rng.randrange(1, nx - 2); i1 = ctx.rng.randrange(i0 + 2, nx); j0 = ctx.rng.randrange(1, ny - 2); j1 = ctx.rng.randrange(j0 + 2, ny)
+        sub = [None if ctx.rng.random() < 0.25 else t for t in (i0, i1, j0, j1)]; ctx.branch("subgrid_random")
+        if any(t is None for t in sub):
+            ctx.branch("subgrid_with_None")
+    else:
+        ctx.branch("subgrid_whole")
+    whole = [1, nx - 1, 1, ny - 1]
+    li0, li1, lj0, lj1 = [w if (sub is None or s_ is None) else s_ for s_, w in zip(sub or [None] * 4, whole)]
+    mask = np.ones((ny, nx))
+    for _ in range(ctx.rng.randrange(0, 4)):
+        mask[ctx.rng.randrange(ny), ctx.rng.randrange(nx)] = 0
+    # land in the outermost row / column of the sub-grid
+    if ctx.rng.random() < 0.5: mask[ctx.rng.randrange(lj0, lj1), li1 - 1] = 0; ctx.branch("land_on_east_column")
+    if ctx.rng.random() < 0.5: mask[lj1 - 1, ctx.rng.randrange(li0, li1)] = 0; ctx.branch("land_on_north_row")
+    if ctx.rng.random() < 0.25: mask[ctx.rng.randrange(lj0, lj1), li0] = 0; ctx.branch("land_on_west_column")
+    if ctx.rng.random() < 0.25: mask[lj0, ctx.rng.randrange(li0, li1)] = 0; ctx.branch("land_on_south_row")
+    path = os.path.join(tmp, "roms%d.nc" % r)
+    romsfile.write_roms(path, ctx.rng, nx=nx, ny=ny, N=N, mask=mask)
+    conf = dict(gridforce=dict(input_file=path), start_time=np.datetime64("2015-09-07T01:00:00"),
+                stop_time=np.datetime64("2015-09-07T02:00:00"), dt=600, ibm_forcing=["temp", "AKs"])
+    if sub is not None:
+        conf["gridforce"]["subgrid"] = sub
+    # bathymetry range and vertical grid (the file romsfile wrote has h in 20..100, hc = 10, Cs ~ -|s|^1.5, no Vtransform)
+    hk = ctx.rng.choice(["file", "file", "shallow", "deep"])
+    vk = ctx.rng.choice(["file_vt1", "file_vt1", "file_vt2", "vinfo1", "vinfo2", "vinfo4"])
+    R = np.random.RandomState(ctx.sub_seed())
+    with netCDF4.Dataset(path, "a") as ds:
+        if hk == "shallow":
+            ds["h"][:] = 2.0 + 28.0 * R.rand(ny, nx)
+        elif hk == "deep":
+            ds["h"][:] = 50.0 + 450.0 * R.rand(ny, nx)
+        hmin = float(np.min(ds["h"][:]))
+        vt = 2 if vk == "file_vt2" else 1 if vk == "file_vt1" else ctx.rng.choice([1, 2])
+        if vt == 1:
+            # the Song-Haidvogel transform needs hc <= min(h) for increasing columns
+            hc = ctx.rng.choice([10.0, 1.0, hmin]) if hmin >= 10.0 else hmin * ctx.rng.uniform(0.1, 1.0)
+        else:
+            hc = ctx.rng.choice([5.0, 10.0, 50.0, 200.0])
+        if vk.startswith("file"):
+            ds["hc"][...] = hc
+            if vt == 2:
+                v = ds.createVariable("Vtransform", "i4", ()); v[...] = 2
+        else:
+            vs = int(vk[-1])
+            conf["gridforce"]["Vinfo"] = dict(N=N, hc=hc, theta_s=ctx.rng.uniform(0.5, 7.0),
+                                              theta_b=ctx.rng.uniform(0.1, 1.0) if vs == 1 else ctx.rng.uniform(0.1, 4.0),
+                                              Vstretching=vs, Vtransform=vt)
+    ctx.branch("bathymetry_" + hk); ctx.branch("vertical_%s_Vtransform%d" % (vk if vk.startswith("vinfo") else "file", vt))
+    return conf
 
 
 def run(ctx):
@@ -190,20 +568,26 @@ def run(ctx):
     try:
         confs = []
         for r in range(ctx.n(3, 12)):
-            nx = ctx.rng.randrange(6, 11); ny = ctx.rng.randrange(5, 10); N = ctx.rng.randrange(3, 6)
-            mask = np.ones((ny, nx)); 
-            for _ in range(ctx.rng.randrange(0, 4)):
-                mask[ctx.rng.randrange(ny), ctx.rng.randrange(nx)] = 0
-            path = os.path.join(tmp, "roms%d.nc" % r)
-            romsfile.write_roms(path, ctx.rng, nx=nx, ny=ny, N=N, mask=mask)
-            conf = dict(gridforce=dict(input_file=path), start_time=np.datetime64("2015-09-07T01:00:00"),
-                        stop_time=np.datetime64("2015-09-07T02:00:00"), dt=600, ibm_forcing=["temp", "AKs"])
-            if ctx.rng.random() < 0.4:
-                conf["gridforce"]["subgrid"] = [2, nx - 2, 1, ny - 2]
+            for attempt in range(6):
+                conf = make_conf(ctx, tmp, r)
+                g = G.Grid(conf)
+                if np.all(np.diff(g.z_w, axis=0) > 0) and np.all(np.diff(g.z_r, axis=0) > 0):
+                    break
+                ctx.branch("vertical_grid_not_increasing_redrawn")      # not an input of the property: columns must increase upwards
+            else:
+                raise RuntimeError("no valid vertical grid in 6 draws")
             confs.append((conf, "synthetic%d" % r))
         for conf, label in confs:
             check_grid(ctx, drv, pend, G, conf, label)
+            check_grid(ctx, drv, pend, G, conf, label, pair="mine")
+            lice_vert_mix(ctx, conf, label)
             sed_depth(ctx, drv, pend, conf, label)
+        # full LADiM runs with particles leaving through each boundary
+        idx = 0
+        for rep in range(ctx.n(1, 8)):
+            for module in ("chemicals", "sedimentation", "mine"):
+                for side in "WESN":
+                    full_run(ctx, tmp, module, side, idx); idx += 1
         # the shipped chemicals forcing file (no AKs/temp there: grid queries only through a reduced config)
         chem = os.path.join(os.path.dirname(G.__file__), "forcing.nc")
         try:
@@ -233,6 +617,9 @@ def run(ctx):
                 ctx.eq_bits("gs.z2s.A", impl[1], unF(t[1]), cs)
             elif kind == "bil":
                 ctx.eq_close("gs.bilinear", impl, unF(t[0]), cs, rel=1e-12, abs_=1e-12)
+            elif kind == "tri":
+                # sample3D adds the eight weighted values in the order of the model: same bits
+                ctx.eq_bits("gs.trilinear", impl, unF(t[0]), cs)
 
 
 def replay(payload):
